@@ -605,12 +605,13 @@ fn build_debug_expr(
         for field in fields {
             if !field.hattrs.is_debug_ignore() {
                 let e = to_expr(field);
+                // Like `#[derive(Debug)]`, pass a reference to the reference so that an unsized last field can be coerced to `&dyn Debug`.
                 expr.extend(match &field.field.ident {
                     Some(ident) if is_named => {
                         let name = ident.unraw().to_string();
-                        quote! (.field(#name, #e))
+                        quote! (.field(#name, &#e))
                     }
-                    _ => quote! (.field(#e)),
+                    _ => quote! (.field(&#e)),
                 });
                 field.push_bounds_to(use_bounds, kind, wcb);
             }
